@@ -3,6 +3,7 @@ reference implementations (C12 C13 C15 C17 C18 C19)."""
 from __future__ import annotations
 
 import itertools
+import math
 import os
 import shutil
 import tempfile
@@ -268,7 +269,7 @@ def c18_points_case(case):
     xs = [x * (0.5 if scale else 1.0) for _t, x in pts]
     for i, (t, x) in enumerate(pts):
         d = g.nodes[i]
-        if d["time"] != t or [float(v) for v in d["pos"]] != [0.0] * (ndim - 2) + [xs[i]]:
+        if d["time"] != t or not _feq([float(v) for v in d["pos"]], [0.0] * (ndim - 2) + [xs[i]]):
             out.append(vio("C18", "node-attrs", f"node {i}: {d} for point {(t, x)} scale {sc}", case, "points"))
             return out
     exp = set()
@@ -282,6 +283,10 @@ def c18_points_case(case):
         cl = "extra" if extra else "missing"
         out.append(vio("C18", f"edges-{cl}", f"points {pts} maxd {maxd}: extra {extra} missing {missing}", case, "points", _gap_class(pts)))
     return out
+
+
+def _feq(a, b):
+    return len(a) == len(b) and all(x == y or math.isclose(x, y, rel_tol=1e-12, abs_tol=1e-12) for x, y in zip(a, b))
 
 
 def _gap_class(pts):
@@ -331,7 +336,7 @@ def c18_seg_case(case):
         return [vio("C18", "nodes", f"nodes {sorted(g.nodes)} vs detections {sorted(dets)}", case, "seg")]
     for n, (t, pos, area) in dets.items():
         d = g.nodes[n]
-        if d["time"] != t or [float(v) for v in d["pos"]] != pos or float(d["area"]) != area:
+        if d["time"] != t or not _feq([float(v) for v in d["pos"]], pos) or not _feq([float(d["area"])], [area]):
             out.append(vio("C18", "node-attrs", f"node {n}: {d} expected time {t} pos {pos} area {area}", case, "seg"))
             return out
     exp = {}
@@ -351,7 +356,7 @@ def c18_seg_case(case):
         return out
     for e, v in exp.items():
         gv = g.edges[e].get("iou")
-        if gv is None or float(gv) != v:
+        if gv is None or not _feq([float(gv)], [v]):
             out.append(vio("C18", "iou", f"edge {e}: iou {gv} expected {v}; seg {seg.tolist()}", case, "seg"))
             return out
     return out
